@@ -168,6 +168,14 @@ func (x *fx) staticCall(ci ssa.CallInstruction, fn *ssa.Function, args []Term, f
 			}
 			return x.contractCall(fc, ek, fc.Params, ptypes, args, sig.Results(), nil, ci)
 		}
+		if defaultPureExtern(fn) {
+			e.trusted["library function "+fn.String()+" has no effect on the program's heap (default for package "+fn.Pkg.Pkg.Path()+", no explicit stub)"] = true
+			if strings.HasPrefix(fn.Name(), "Fatal") || strings.HasPrefix(fn.Name(), "Panic") || fn.Name() == "Exit" {
+				// does not return
+				x.curReach = "false"
+			}
+			return x.unknownCall("external "+fn.String(), sig.Results(), newEffects())
+		}
 		// code outside Comcast/sheens is never inlined: without a stub it is an unknown call
 		return x.unknownCall("external "+fn.String(), sig.Results(), &Effects{All: true, Why: "external function without stub: " + fn.String()})
 	}
